@@ -18,7 +18,12 @@ def search(fn, cfg, model, budget=450):
     r = rtc.run_one(fn, cfg, model, 0)
     if r['ok'] is False:
         return model, r
-    keys = ['H', 'W', 'L2', 'C', 'B', 'N']
+    if fn in ('precision', 'purity', 'history_order', 'functional_dtype', 'dtcwt_table'):      # fixed shapes: only the seed varies
+        for sd in (1, 2):
+            r2 = rtc.run_one(fn, cfg, model, sd)
+            if r2['ok'] is False:
+                return model, r2
+        return None, r
     for total in range(0, 30):
         for H, W, L2 in itertools.product(range(1, 12), range(1, 12), range(1, 6)):
             if H + W + L2 != total + 3:
